@@ -392,6 +392,7 @@ pub fn gen_resize(rng: &mut Rng, cfg: &ResizeCfg, classes: &mut Vec<String>, pt_
         }
         classes.push("zero-dim".into());
     }
+    let mut strong = false;
     // "strong reduction": hundreds of source samples per destination sample along one axis
     // (tiny normalised weights: the fixed-point precision reaches its maximum)
     if !wrap && cfg.allow_invalid && rng.chance(1, 25) {
@@ -410,6 +411,7 @@ pub fn gen_resize(rng: &mut Rng, cfg: &ResizeCfg, classes: &mut Vec<String>, pt_
             dh = rng.range(1, 8) as u32;
         }
         classes.push("geometry:strong-reduction".into());
+        strong = true;
     }
     // "one-axis" geometry: one direction is an identity (integer origin, crop size ==
     // destination size) inside a larger source, so that only ONE pass runs, straight from
@@ -439,7 +441,7 @@ pub fn gen_resize(rng: &mut Rng, cfg: &ResizeCfg, classes: &mut Vec<String>, pt_
     };
     let yield_rows = rng.chance(2, 3);
     let mut src = mk_img(rng, sw, sh, sk, pt, false, yield_rows);
-    if sw > 0 && sh > 0 && dw > 0 && dh > 0 && rng.chance(1, 10) {
+    if sw > 0 && sh > 0 && dw > 0 && dh > 0 && (rng.chance(1, 10) || (strong && rng.chance(1, 2))) {
         // blocks of the size of one destination pixel's footprint
         src.content = Content::Blocks;
         src.content_seed = ((sw / dw).max(1).min(0xffff) as u64) | (((sh / dh).max(1).min(0xffff) as u64) << 16);
@@ -475,9 +477,37 @@ pub fn gen_resize(rng: &mut Rng, cfg: &ResizeCfg, classes: &mut Vec<String>, pt_
     }
     let alg = if wrap {
         *rng.pick(&[Alg::Conv(Filt::Bilinear), Alg::Conv(Filt::Box), Alg::Nearest, Alg::Interp(Filt::Bilinear)])
+    } else if strong && cfg.custom_level >= 2 && rng.chance(1, 2) {
+        // the largest accumulator excursions: a kernel with strong negative lobes
+        let f = pick_custom(rng, 2);
+        if rng.chance(3, 4) {
+            Alg::Conv(f)
+        } else {
+            Alg::Super(f, 1)
+        }
     } else {
         pick_alg(rng, cfg.custom_level)
     };
+    // SuperSampling takes its two-step path only if the source is more than 1.2 x
+    // multiplicity bigger than the destination in both directions: make that common
+    let mut src = src;
+    let mut crop = crop;
+    if let Alg::Super(_, m) = alg {
+        if !wrap && one_axis.is_none() && !strong && m <= 8 && dst.w > 0 && dst.h > 0 && src.w > 0 && src.h > 0 && rng.chance(1, 2) {
+            let k = 1.25 + rng.f64() * 1.5;
+            let grow = |d: u32| ((d as f64 * m as f64 * k).ceil() as u32).clamp(1, 1600);
+            let (nw, nh) = (grow(dst.w), grow(dst.h));
+            if (nw as u64) * (nh as u64) <= 200_000 {
+                src.w = nw;
+                src.h = nh;
+                if src.content == Content::Blocks {
+                    src.content = Content::Random;
+                }
+                crop = if rng.chance(1, 4) { Crop::Fit(f(rng.f64()), f(rng.f64())) } else { Crop::None };
+                classes.push("geometry:two-step-supersampling".into());
+            }
+        }
+    }
     let dst_pt = if cfg.allow_type_mismatch && dk.is_dyn() && rng.chance(1, 30) {
         classes.push("type-mismatch".into());
         Some(*rng.pick(&ALL_PT))
